@@ -43,6 +43,17 @@ THEOREMS = [
     "Scenic.Sample.scene_roundtrip",
     "Scenic.C18.sample_roundtrip",
     "Scenic.C18.sample_truncation_refused",
+    "Scenic.C18.vector_divergence_iff",
+    "Scenic.C18.vector_divergence_symmetric",
+    "Scenic.ReplayStream.header_roundtrip",
+    "Scenic.ReplayStream.header_refuses_version",
+    "Scenic.ReplayStream.header_truncation_refused",
+    "Scenic.ReplayStream.checkProps_spec",
+    "Scenic.ReplayStream.checkProps_truncation_refused",
+    "Scenic.ReplayStream.draw_truncation_refused",
+    "Scenic.ReplayStream.update_truncation_refused",
+    "Scenic.ReplayStream.replay_reproduces",
+    "Scenic.ReplayStream.simulate_replay_reproduces",
 ]
 SIDE = ["Scenic.C18.gen_table_wf", "Scenic.C18.gen_reads_checked", "Scenic.C18.gen_divergence_abs"]
 
@@ -62,7 +73,32 @@ FINGERPRINTS = {
     "Samplable.deserializeValue": ("src/scenic/core/distributions.py", "Samplable.deserializeValue"),
     "Vector.encodeTo": ("src/scenic/core/vectors.py", "Vector.encodeTo"),
     "Vector.decodeFrom": ("src/scenic/core/vectors.py", "Vector.decodeFrom"),
+    "Orientation.encodeTo": ("src/scenic/core/vectors.py", "Orientation.encodeTo"),
+    "Orientation.decodeFrom": ("src/scenic/core/vectors.py", "Orientation.decodeFrom"),
+    "Distribution.__new__": ("src/scenic/core/distributions.py", "Distribution.__new__"),
+    "initializeReplay": ("src/scenic/core/simulators.py", "Simulation.initializeReplay"),
+    "replayCanContinue": ("src/scenic/core/simulators.py", "Simulation.replayCanContinue"),
+    "detectReplayEnd": ("src/scenic/core/simulators.py", "Simulation.detectReplayEnd"),
+    "recordSampledValue": ("src/scenic/core/simulators.py", "Simulation.recordSampledValue"),
+    "replaySampledValue": ("src/scenic/core/simulators.py", "Simulation.replaySampledValue"),
+    "sceneToBytes": ("src/scenic/core/scenarios.py", "Scenario.sceneToBytes"),
+    "sceneFromBytes": ("src/scenic/core/scenarios.py", "Scenario.sceneFromBytes"),
+    "simulationToBytes": ("src/scenic/core/scenarios.py", "Scenario.simulationToBytes"),
+    "simulationFromBytes": ("src/scenic/core/scenarios.py", "Scenario.simulationFromBytes"),
+    "_makeSceneFromSample": ("src/scenic/core/scenarios.py", "Scenario._makeSceneFromSample"),
+    "CompileOptions": ("src/scenic/syntax/translator.py", "CompileOptions"),
+    "deterministicHash": ("src/scenic/core/serialization.py", "deterministicHash"),
 }
+
+
+def bud(ctx, quick, thorough):
+    """thorough tier: the thorough budget; quick tier on a changed source (fingerprint / lost translator tie):
+    four times the quick budget (capped by the thorough one); otherwise the quick budget."""
+    if ctx.tier == "thorough":
+        return thorough
+    if ctx.escalated:
+        return min(thorough, 4 * quick)
+    return quick
 
 
 def hexs(b):
@@ -150,7 +186,7 @@ def classify_int(z):
 def corr_codecs(ctx, table):
     S = real()
     rng = ctx.rng
-    zs = boundary_ints(rng, table, ctx.budget(300, 6000))
+    zs = boundary_ints(rng, table, bud(ctx, 300, 6000))
     lines, py = [], []
     for z in zs:
         lines.append(f"C18 wint {z}")
@@ -170,12 +206,12 @@ def corr_codecs(ctx, table):
             reads.add(b + bytes([rng.randrange(256)]))
             for k in range(len(b)):
                 reads.add(b[:k])
-            for _ in range(ctx.budget(2, 6)):
+            for _ in range(bud(ctx, 2, 6)):
                 k = rng.randrange(len(b))
                 c = bytearray(b)
                 c[k] = rng.randrange(256)
                 reads.add(bytes(c))
-    for _ in range(ctx.budget(300, 5000)):
+    for _ in range(bud(ctx, 300, 5000)):
         n = rng.choice([0, 1, 2, 3, 4, 5, 6, 9, 20])
         first = rng.choice([0, 1, 251, 252, 253, 254, 255, rng.randrange(256)])
         reads.add(bytes([first] + [rng.randrange(256) for _ in range(n)]) if n or rng.random() < 0.9 else b"")
@@ -186,7 +222,7 @@ def corr_codecs(ctx, table):
         ctx.hist("rint_len", min(len(b), 10))
     # bytes / str codec
     blobs = [b"", b"a", bytes(range(10)), bytes(252), bytes(253), bytes(300), bytes(70000)]
-    for _ in range(ctx.budget(40, 400)):
+    for _ in range(bud(ctx, 40, 400)):
         blobs.append(bytes(rng.randrange(256) for _ in range(rng.choice([0, 1, 5, 251, 252, 253, 254, 300]))))
     bread = set()
     for v in blobs:
@@ -267,6 +303,67 @@ def direct_codecs(ctx, encs):
     return found
 
 
+# --------------------------------------------------------------------------- direct oracle: value codecs
+def value_cases(rng, n):
+    from scenic.core.vectors import Orientation, Vector
+    specials = [0.0, -0.0, 1.5, -2.25, float("inf"), float("-inf"), float("nan"), 5e-324, 1.7976931348623157e308,
+                struct.unpack("<d", bytes([1, 0, 0, 0, 0, 0, 0xF8, 0x7F]))[0]]
+    fl = lambda: rng.choice(specials) if rng.random() < 0.5 else rng.uniform(-1e3, 1e3)
+    out = []
+    for _ in range(n):
+        out.append((float, fl()))
+        out.append((Vector, Vector(fl(), fl(), fl())))
+        out.append((Orientation, Orientation.fromEuler(rng.uniform(-3, 3), rng.uniform(-1.5, 1.5), rng.uniform(-3, 3))))
+        out.append((str, "".join(rng.choice("ab\u00e9\u4e2d\U0001F600 \x00") for _ in range(rng.choice([0, 1, 5, 252, 253, 300])))))
+        out.append((bytes, bytes(rng.randrange(256) for _ in range(rng.choice([0, 1, 2, 251, 252, 253, 400])))))
+        out.append((bool, rng.random() < 0.5))
+        out.append((type(None), None))
+        out.append((int, rng.choice([0, 252, 253, -1, 32767, 32768, -32769, 2 ** 31, -2 ** 31 - 1, 2 ** 70])))
+    return out
+
+
+def value_check(S, ty, v):
+    """-> None or (what, k): round trip through Serializer.writeValue/readValue with a suffix, and every strict
+    prefix refused with SerializationError (real code only)."""
+    w = S.Serializer()
+    w.writeValue(v, ty)
+    b = w.getBytes()
+    r = S.Serializer(b + b"*")
+    try:
+        back = r.readValue(ty)
+        rest = r.stream.read()
+    except Exception as e:
+        return f"decoding raised {type(e).__name__}", None
+    if canon_value(back) != canon_value(v) or type(back) is not type(v) or rest != b"*":
+        return f"decoded {back!r} rest {rest!r}", None
+    for k in range(len(b)) if len(b) <= 40 else (0, 1, 2, len(b) // 2, len(b) - 1):
+        try:
+            S.Serializer(b[:k]).readValue(ty)
+            return f"prefix of {k} of {len(b)} bytes accepted", k
+        except S.SerializationError:
+            pass
+        except Exception as e:
+            return f"prefix of {k} bytes raised {type(e).__name__}", k
+    return None
+
+
+def direct_values(ctx):
+    S = real()
+    found = False
+    for ty, v in value_cases(ctx.rng, bud(ctx, 40, 600)):
+        ctx.case(("value", ty.__name__, canon_value(v)), nontrivial=ty is not type(None))
+        ctx.hist("value_type", ty.__name__)
+        bad = value_check(S, ty, v)
+        if bad:
+            what, k = bad
+            enc = canon_value(v) if not isinstance(v, (str, bytes)) else (v.encode() if isinstance(v, str) else v).hex()
+            ctx.violation(f"value-codec:{ty.__name__}", f"{ty.__name__} value {v!r}: {what}",
+                          {"kind": "value", "type": ty.__name__, "enc": enc})
+            found = True
+            break
+    return found
+
+
 # --------------------------------------------------------------------------- divergence
 def corr_divergence(ctx):
     from scenic.core.simulators import DummySimulator, Simulation
@@ -278,12 +375,12 @@ def corr_divergence(ctx):
     rng = ctx.rng
     vals = [0, 1, -1, 0.5, -0.5, 3, 10, -10, 2.25, 100, 1e-3, 0.125]
     tols = [0, 0.5, 1, 0.125, 2]
-    for _ in range(ctx.budget(300, 4000)):
+    for _ in range(bud(ctx, 300, 4000)):
         tol, e, a = rng.choice(tols), rng.choice(vals), rng.choice(vals)
         if rng.random() < 0.5:
             a = e + rng.choice([-1, 1]) * tol * rng.choice([0.5, 1, 2, 1.5])
         cases.append(("s", tol, float(e), float(a)))
-    for _ in range(ctx.budget(100, 1000)):
+    for _ in range(bud(ctx, 100, 1000)):
         tol = rng.choice(tols)
         e = [float(rng.choice(vals)) for _ in range(3)]
         a = [x + rng.choice([0, 0, tol, -tol, 2 * tol, -2 * tol, 0.5 * tol]) for x in e]
@@ -339,7 +436,7 @@ VALUE_EXPRS = [
     "Uniform(Uniform({i}, {j}), Range({a}, {b}))", "({a}, Range({a}, {b}), DiscreteRange({i}, {j}))",
     "Range({a}, {b}) @ Range({a}, {b})", "Uniform(True, False)",
     "[Range(0, 1), Uniform(1, 2, 3)]", "Uniform((1, 2), (3, 4))",
-    "Range({a}, {b}) if Uniform(True, False) else DiscreteRange({i}, {j})",
+    "Options({{Range({a}, {b}): 1, DiscreteRange({i}, {j}): 3, Uniform({k}, Range(0, 1)): 2}})",
     "abs(Range(-{b}, {b})) * Uniform(1, -1)",
 ]
 
@@ -369,12 +466,15 @@ def gen_program(rng, with_sim=False):
     for n in range(nobj):
         tgt = "ego" if n == 0 else f"o{n}"
         pos = f"(Range({10*n}, {10*n+3}), Range(-2, 2), {rng.choice(['0', 'Range(0, 1)'])})"
+        where = "at " + pos
+        if rng.random() < 0.3:   # a Vector-valued primitive distribution (point in a region)
+            where = rng.choice([f"in CircularRegion(({10*n}, 0), 2)", f"in RectangularRegion(({10*n}, 0), 0.3, 3, 2)"])
         extra = rng.choice(["", ", facing Range(-1, 1)", ", with width Range(1, 2)", ", with foo Uniform(1, 'a', 2.5)",
                             ", facing (Range(0,1), Range(0,1), Range(0,1))"])
         beh = ""
         if with_sim:
             beh = ", with behavior B()" if n == 0 or rng.random() < 0.5 else ""
-        lines.append(f"{tgt} = new Object at {pos}{extra}{beh}, with allowCollisions True")
+        lines.append(f"{tgt} = new Object {where}{extra}{beh}, with allowCollisions True")
         if rng.random() < 0.3:
             lines.append(f"mutate {tgt}")
     if rng.random() < 0.4:
@@ -396,6 +496,12 @@ def gen_program(rng, with_sim=False):
         lines.append("record final ego.position.x as fx")
         lines.append(f"terminate when ego.position.x > {rng.choice([20, 40, 1000])}")
     return "\n".join(pre + lines) + "\n"
+
+
+def seed_all(seed):
+    import numpy
+    random.seed(seed)
+    numpy.random.seed(seed % (2 ** 32))
 
 
 def canon_value(v):
@@ -557,18 +663,19 @@ def direct_scenes(ctx):
     import scenic
     from scenic.core.serialization import SerializationError
     rng = ctx.rng
-    nprog = ctx.budget(25, 400)
+    nprog = bud(ctx, 25, 400)
     found = False
     for pi in range(nprog):
         code = gen_program(rng)
+        seed = rng.getrandbits(32)
         try:
-            random.seed(rng.getrandbits(32))
+            seed_all(seed)
             sc = scenic.scenarioFromString(code)
         except Exception as e:
             ctx.hist("scene_program", "generator-invalid:" + type(e).__name__)
             continue
         ctx.hist("scene_program", "compiled")
-        for si in range(ctx.budget(2, 4)):
+        for si in range(bud(ctx, 2, 4)):
             try:
                 scene, _ = sc.generate(maxIterations=200)
             except Exception as e:
@@ -579,12 +686,12 @@ def direct_scenes(ctx):
             except Exception as e:
                 if ctx.violation(f"scene-encode-{type(e).__name__}",
                                  f"sceneToBytes failed on a generated scene: {type(e).__name__}: {str(e)[:200]} "
-                                 f"(cause: {e.__cause__!r})", {"kind": "scene_encode", "program": code}):
+                                 f"(cause: {e.__cause__!r})", {"kind": "scene_encode", "program": code, "seed": seed, "si": si}):
                     found = True
                 break
             ctx.case(("scene", code, data.hex()))
             ctx.hist("scene_bytes", min(len(data) // 20 * 20, 200))
-            rep = {"kind": "scene", "program": code, "data": data.hex()}
+            rep = {"kind": "scene", "program": code, "data": data.hex(), "seed": seed, "si": si}
             if ctx.proof is not None and ctx.proof.build_ok:
                 corr_sample(ctx, sc, scene, data)
             try:
@@ -646,17 +753,20 @@ def direct_scenes(ctx):
                 for name, o, kw in (("other-program", other, {}),):
                     try:
                         o.sceneFromBytes(data)
-                        ctx.violation("header-" + name, "scene decoded by a different program", rep)
+                        ctx.violation("header-" + name, "scene decoded by a different program", dict(rep, header="program"))
                         found = True
                     except SerializationError:
                         ctx.hist("header", name + ":refused")
-                sc2 = scenic.scenarioFromString(code, mode2D=True)
-                try:
-                    sc2.sceneFromBytes(data)
-                    ctx.violation("header-other-options", "scene decoded under different compile options", rep)
-                    found = True
-                except SerializationError:
-                    ctx.hist("header", "other-options:refused")
+                for label, kw in (("options", dict(mode2D=True)), ("params", dict(params={"zz_override": 2})),
+                                  ("params2", dict(params={"q": 1}))):
+                    sc2 = scenic.scenarioFromString(code, **kw)
+                    try:
+                        sc2.sceneFromBytes(data)
+                        ctx.violation("header-other-options", f"scene decoded under different compile options {kw}",
+                                      dict(rep, header=label))
+                        found = True
+                    except SerializationError:
+                        ctx.hist("header", f"other-{label}:refused")
             except Exception as e:
                 ctx.hist("header", "skipped:" + type(e).__name__)
     return found
@@ -737,10 +847,11 @@ def direct_sims(ctx):
     KinSimulator = make_sim_classes()
     rng = ctx.rng
     found = False
-    for pi in range(ctx.budget(10, 150)):
+    for pi in range(bud(ctx, 10, 150)):
         code = gen_program(rng, with_sim=True)
+        seed = rng.getrandbits(32)
         try:
-            random.seed(rng.getrandbits(32))
+            seed_all(seed)
             sc = scenic.scenarioFromString(code)
         except Exception as e:
             ctx.hist("sim_program", "generator-invalid:" + type(e).__name__)
@@ -752,8 +863,9 @@ def direct_sims(ctx):
             continue
         steps = rng.choice([3, 6, 10])
         for divcheck in (False, True):
-            rep = {"kind": "sim", "program": code, "steps": steps, "divcheck": divcheck}
+            rep = {"kind": "sim", "program": code, "steps": steps, "divcheck": divcheck, "seed": seed}
             try:
+                seed_all(seed + 1 + divcheck)
                 sim = KinSimulator().simulate(scene, maxSteps=steps, enableReplay=True, enableDivergenceCheck=divcheck,
                                               maxIterations=5)
             except NameError:
@@ -761,7 +873,7 @@ def direct_sims(ctx):
             except Exception as e:
                 if ctx.violation(f"sim-record-{type(e).__name__}",
                                  f"simulating with enableReplay failed: {type(e).__name__}: {str(e)[:200]} "
-                                 f"(cause: {e.__cause__!r})", dict(rep)):
+                                 f"(cause: {e.__cause__!r})", dict(rep, check="record")):
                     found = True
                 break
             if sim is None:
@@ -778,7 +890,7 @@ def direct_sims(ctx):
                 same = f"{type(e).__name__}: {e}"
             if same is not True:
                 if ctx.violation("replay-roundtrip", f"replayed simulation differs from the recording ({same})",
-                                 dict(rep, data=data.hex())):
+                                 dict(rep, check="replay", data=data.hex())):
                     found = True
                     break
             # round trip through simulationToBytes / simulationFromBytes
@@ -790,7 +902,7 @@ def direct_sims(ctx):
                 same = f"{type(e).__name__}: {e}"
             if same is not True:
                 key = "simulationFromBytes-roundtrip" + (":mutate" if "mutate" in code else "")
-                if ctx.violation(key, f"simulationFromBytes differs ({same})", dict(rep)):
+                if ctx.violation(key, f"simulationFromBytes differs ({same})", dict(rep, check="frombytes")):
                     found = True
                     break
             if divcheck:
@@ -806,7 +918,8 @@ def direct_sims(ctx):
                                                               divergenceTolerance=0.5, maxIterations=1)
                             ctx.violation(f"divergence-not-reported:{prop}:{'pos' if delta > 0 else 'neg'}",
                                           f"replay with {prop} perturbed by {delta} at step {st} (tolerance 0.5) "
-                                          "was not reported as divergent", dict(rep, perturb=pert, data=data.hex()))
+                                          "was not reported as divergent",
+                                          dict(rep, check="perturb", perturb=pert, data=data.hex()))
                             found = True
                         except DivergenceError:
                             ctx.hist("divergence", f"{prop}:{'+' if delta > 0 else '-'}:reported")
@@ -833,7 +946,7 @@ def direct_sims(ctx):
                 except Exception as e:
                     ctx.violation(f"replay-truncation-{type(e).__name__}",
                                   f"replay truncated to {k} bytes raised {type(e).__name__}: {str(e)[:100]}",
-                                  dict(rep, k=k, data=data.hex()))
+                                  dict(rep, check="truncate", k=k, data=data.hex()))
                     found = True
                     break
         if found:
@@ -873,7 +986,7 @@ def run(ctx):
     pr = ctx.prove(THEOREMS, side_conditions=SIDE)
     if ctx.tier == "thorough" and pr.build_ok:
         ctx.leanchecker(["ScenicModel.Props.C18", "ScenicModel.Props.C18Int", "ScenicModel.Props.C18Replay",
-                         "ScenicModel.Props.C18Sample"])
+                         "ScenicModel.Props.C18Sample", "ScenicModel.Props.C18Stream"])
     found = False
     encs = []
     if pr.build_ok:
@@ -886,45 +999,180 @@ def run(ctx):
             if r.startswith("ok "):
                 encs.append((z, bytes.fromhex(r[3:])))
     found |= direct_codecs(ctx, encs)
-    found |= direct_scenes(ctx)
-    found |= direct_sims(ctx)
+    found |= direct_values(ctx)
+    # the run stops at the first concrete failing input: the remaining generators are skipped
+    if not found:
+        found |= direct_scenes(ctx)
+    if not found:
+        found |= direct_sims(ctx)
     ctx.resolve_brokens(found)
 
 
-def replay(ctx, path):
-    body = json.load(open(path))
-    rep = body.get("replay", body)
+def judge(rep):
+    """Re-evaluate the property on the recorded input against the current $SCENIC_REPO.
+    -> (violated?, message)"""
     S = real()
     import scenic
+    from scenic.core.serialization import SerializationError
     kind = rep.get("kind")
-    if kind in ("int_roundtrip", "int_truncation"):
+    if kind == "int_roundtrip":
+        z = int(rep["z"])
+        st = io.BytesIO()
+        S.writeInt(z, st)
+        r = py_read(S, int, st.getvalue() + b"\x2a", str)
+        return r != f"ok {z} 2a", f"readInt(writeInt({z}) + b'*') -> {r}"
+    if kind == "int_truncation":
         z = int(rep["z"])
         st = io.BytesIO()
         S.writeInt(z, st)
         b = st.getvalue()
-        k = rep.get("k", len(b))
-        print("encoding:", b.hex(), "reading first", k, "bytes ->", py_read(S, int, b[:k], str))
-    elif kind == "scene":
-        sc = scenic.scenarioFromString(rep["program"])
-        data = bytearray(bytes.fromhex(rep["data"]))
-        if "v" in rep:
-            data[rep["k"]] = rep["v"]
-        elif "k" in rep:
-            data = data[: rep["k"]]
-        try:
-            s = sc.sceneFromBytes(bytes(data))
-            print("decoded:", canon_scene(s))
-        except Exception as e:
-            print("raised", type(e).__name__, e)
-    elif kind == "divergence":
+        r = py_read(S, int, b[: rep["k"]], str)
+        return r != "err", f"encoding {b.hex()} cut to {rep['k']} bytes -> {r} (must be a SerializationError)"
+    if kind == "divergence":
         from scenic.core.simulators import Simulation
         from scenic.core.vectors import Vector
         c = rep["case"]
 
         class P:
             divergenceTolerance = c[1]
-        e, a = (c[2], c[3]) if c[0] == "s" else (Vector(*c[2]), Vector(*c[3]))
-        print("valuesHaveDiverged ->", Simulation.valuesHaveDiverged(P(), None, "x", e, a))
-    else:
-        print(json.dumps(rep, indent=1)[:3000])
-    return 0
+        if c[0] == "s":
+            e, a = c[2], c[3]
+            truth = abs(Fraction(a) - Fraction(e)) > Fraction(c[1])
+        else:
+            e, a = Vector(*c[2]), Vector(*c[3])
+            truth = sum((Fraction(x) - Fraction(y)) ** 2 for x, y in zip(c[3], c[2])) > Fraction(c[1]) ** 2
+        r = bool(Simulation.valuesHaveDiverged(P(), None, "x", e, a))
+        return r != truth, f"valuesHaveDiverged(expected={c[2]}, actual={c[3]}, tol={c[1]}) = {r}, exact answer {truth}"
+    if kind == "value":
+        from scenic.core.vectors import Orientation, Vector
+        from scipy.spatial.transform import Rotation
+        tyname, enc = rep["type"], rep["enc"]
+        unf = lambda h: struct.unpack("<d", bytes.fromhex(h))[0]
+        if tyname == "float":
+            ty, v = float, unf(enc)
+        elif tyname == "Vector":
+            ty, v = Vector, Vector(*[unf(h) for h in enc[2:-1].split(",")])
+        elif tyname == "Orientation":
+            ty, v = Orientation, Orientation(Rotation([unf(h) for h in enc[2:-1].split(",")], normalize=False))
+        elif tyname == "str":
+            ty, v = str, bytes.fromhex(enc).decode()
+        elif tyname == "bytes":
+            ty, v = bytes, bytes.fromhex(enc)
+        elif tyname == "bool":
+            ty, v = bool, enc == "True"
+        elif tyname == "int":
+            ty, v = int, int(enc)
+        else:
+            ty, v = type(None), None
+        bad = value_check(S, ty, v)
+        return bool(bad), (f"{tyname} {v!r}: {bad[0]}" if bad else f"{tyname} {v!r} round-trips and every prefix is refused")
+    if kind in ("scene", "scene_encode"):
+        seed_all(rep.get("seed", 0))
+        sc = scenic.scenarioFromString(rep["program"])
+        scene = None
+        for _ in range(rep.get("si", 0) + 1):
+            scene, _n = sc.generate(maxIterations=200)
+        try:
+            data = sc.sceneToBytes(scene)
+        except Exception as e:
+            return True, f"sceneToBytes raised {type(e).__name__}: {e}"
+        if kind == "scene_encode":
+            return False, "scene encoded"
+        if "header" in rep:
+            kws = {"options": dict(mode2D=True), "params": dict(params={"zz_override": 2}),
+                   "params2": dict(params={"q": 1})}
+            other = (scenic.scenarioFromString(rep["program"] + "param zz = 1\n") if rep["header"] == "program"
+                     else scenic.scenarioFromString(rep["program"], **kws[rep["header"]]))
+            try:
+                other.sceneFromBytes(data)
+                return True, f"scene decoded by a scenario with a different {rep['header']}"
+            except SerializationError as e:
+                return False, f"refused: {e}"
+        if "k" not in rep:
+            try:
+                back = sc.sceneFromBytes(data)
+            except Exception as e:
+                return True, f"decoding the encoded scene raised {type(e).__name__}: {e}"
+            a, b = canon_scene(scene), canon_scene(back)
+            return a != b, ("decoded scene equals the original" if a == b else f"original {a}\n decoded {b}")
+        stored = bytes.fromhex(rep["data"])
+        results = []
+        for label, d in (("stored", stored), ("regenerated", data)):
+            d = bytearray(d)
+            if rep["k"] >= len(d):
+                continue
+            if "v" in rep:
+                d[rep["k"]] = rep["v"]
+            else:
+                d = d[: rep["k"]]
+            try:
+                sc.sceneFromBytes(bytes(d))
+                results.append((label, "decoded"))
+            except SerializationError:
+                results.append((label, "SerializationError"))
+            except Exception as e:
+                results.append((label, type(e).__name__))
+        if "v" in rep:   # corruption: decoding may succeed or raise SerializationError, nothing else
+            bad = [r for r in results if r[1] not in ("decoded", "SerializationError")]
+        else:            # truncation: must be refused with SerializationError
+            bad = [r for r in results if r[1] != "SerializationError"]
+        return bool(bad), f"{'byte %d := %d' % (rep['k'], rep['v']) if 'v' in rep else 'cut to %d bytes' % rep['k']}: {results}"
+    if kind == "sim":
+        from scenic.core.simulators import DivergenceError
+        KinSimulator = make_sim_classes()
+        seed, steps, divcheck = rep.get("seed", 0), rep["steps"], rep["divcheck"]
+        seed_all(seed)
+        sc = scenic.scenarioFromString(rep["program"])
+        scene, _n = sc.generate(maxIterations=200)
+        seed_all(seed + 1 + divcheck)
+        try:
+            sim = KinSimulator().simulate(scene, maxSteps=steps, enableReplay=True, enableDivergenceCheck=divcheck,
+                                          maxIterations=5)
+        except Exception as e:
+            return True, f"recording raised {type(e).__name__}: {e}"
+        if sim is None:
+            return False, "simulation rejected (cannot replay this input)"
+        data, ref = sim.getReplay(), canon_sim(sim)
+        check = rep.get("check", "replay")
+        try:
+            if check == "replay":
+                sim2 = KinSimulator().replay(scene, data, maxSteps=steps, enableReplay=False, maxIterations=1)
+                same = sim2 is not None and canon_sim(sim2) == ref
+                return not same, f"replay equals recording: {same}"
+            if check == "frombytes":
+                sim3 = sc.simulationFromBytes(sc.simulationToBytes(sim), KinSimulator(), maxSteps=steps, enableReplay=False)
+                same = sim3 is not None and canon_sim(sim3) == ref
+                return not same, f"simulationFromBytes equals recording: {same}"
+            if check == "perturb":
+                try:
+                    KinSimulator(perturb=rep["perturb"]).replay(scene, data, maxSteps=steps, enableReplay=False,
+                                                                divergenceTolerance=0.5, maxIterations=1)
+                    return True, f"perturbation {rep['perturb']} (tolerance 0.5) was not reported as divergent"
+                except DivergenceError as e:
+                    return False, f"DivergenceError: {e}"
+            if check == "truncate":
+                try:
+                    KinSimulator().replay(scene, data[: rep["k"]], maxSteps=steps, enableReplay=False, maxIterations=1)
+                    return False, "continued past the end of the truncated replay"
+                except (SerializationError, DivergenceError) as e:
+                    return False, f"refused: {type(e).__name__}"
+        except Exception as e:
+            return True, f"{check} raised {type(e).__name__}: {e}"
+        return False, "recorded"
+    return None, json.dumps(rep, indent=1)[:3000]
+
+
+def replay(ctx, path):
+    body = json.load(open(path))
+    rep = body.get("replay", body)
+    if body.get("no_failing_input_found") or "broken" in rep:
+        print("no concrete input was recorded; what no longer checked:")
+        print(json.dumps(rep, indent=1)[:4000])
+        return 0
+    violated, msg = judge(rep)
+    print(msg)
+    if violated is None:
+        print("UNKNOWN replay kind")
+        return 2
+    print("REPRODUCED: the property fails on this input" if violated else "PASS: the property holds on this input")
+    return 1 if violated else 0
